@@ -14,39 +14,16 @@
    Other flags (--fatal_warnings, paths=source_relative, vtproto features) are not compared;
    [exact_argv] reports, for information only, whether the whole vector equals the model's.   *)
 From Coq Require Import String List Bool Arith Ascii.
-From GT Require Import Base.Verdict ProtoModel.
+From GT Require Import Base.Verdict ProtoModel ProtoStrModel.
 Import ListNotations.
 Local Open Scope string_scope.
 Local Open Scope list_scope.
 
 (* ------------------------------------------------------------------ strings → arguments *)
-Fixpoint split_on (c : ascii) (s : string) : list string :=
-  match s with
-  | EmptyString => [EmptyString]
-  | String a rest =>
-      let r := split_on c rest in
-      if Ascii.eqb a c then EmptyString :: r
-      else match r with
-           | h :: t => String a h :: t
-           | [] => [String a EmptyString]
-           end
-  end.
-
 Definition parse_pspec (s : string) : pspec :=
   match s with
   | String "/" _ => PAbs (split_on "/" s)
   | _ => PRel (split_on "/" s)
-  end.
-
-Fixpoint cut_eq (s : string) : option (string * string) :=
-  match s with
-  | EmptyString => None
-  | String a r =>
-      if Ascii.eqb a "=" then Some (EmptyString, r)
-      else match cut_eq r with
-           | Some (x, y) => Some (String a x, y)
-           | None => None
-           end
   end.
 
 Definition drop (n : nat) (s : string) : string := substring n (String.length s - n) s.
@@ -111,6 +88,7 @@ Definition obs_eqb (a b : obs) : bool :=
 (* ------------------------------------------------------------------ cases *)
 Record pcase : Type := {
   pc_cfg : config;
+  pc_gen : Generate;                     (* the command line as typed (flags after parsing) *)
   pc_oracle : list (path * string);      (* PackageNameFromPath per absolute directory *)
   pc_runs : nat;                         (* how many times the stub was executed *)
   pc_stub_cwd : path;                    (* working directory seen by the stub (last run) *)
@@ -158,8 +136,6 @@ Definition model_eq (c : pcase) : bool :=
   | Err => Nat.eqb (pc_runs c) 0
   end.
 
-Definition proto_judge (c : pcase) : nat := verdict (spec_ok c) (model_eq c).
-
 (* informational: the whole argument vector, in order, equals the rendered model output *)
 Fixpoint strs_eqb (a b : list string) : bool :=
   match a, b with
@@ -167,6 +143,42 @@ Fixpoint strs_eqb (a b : list string) : bool :=
   | x :: a', y :: b' => String.eqb x y && strs_eqb a' b'
   | _, _ => false
   end.
+
+(* the string-level model (ProtoStrModel.s_run, the one the translator tie is about) on the raw
+   command line: same observables *)
+Definition world_of (c : pcase) : world :=
+  {| w_root := c_root (pc_cfg c);
+     w_cwd := render_abs (c_cwd (pc_cfg c));
+     w_pkg := fun s => oracle_of (pc_oracle c) (abs_segs s);
+     w_exec := fun _ _ => ENil |}.
+
+Definition str_model_eq (c : pcase) : bool :=
+  match snd (s_run (world_of c) (pc_gen c)) with
+  | [inv] =>
+      Nat.eqb (pc_runs c) 1
+      && obs_eqb (observed c)
+                 (obs_of_args (c_cwd (pc_cfg c)) (map (parse_arg (c_cwd (pc_cfg c))) (merge_inc (snd inv))))
+  | [] => Nat.eqb (pc_runs c) 0
+  | _ => false
+  end.
+
+(* informational: the recorded vector is literally the string-level model's *)
+Definition str_exact (c : pcase) : bool :=
+  match snd (s_run (world_of c) (pc_gen c)) with
+  | [inv] => strs_eqb (snd inv) (pc_argv c)
+  | [] => Nat.eqb (pc_runs c) 0
+  | _ => false
+  end.
+
+(* protoc is started in the tool's own working directory (exec.Command without Dir) *)
+Definition cwd_eq (c : pcase) : bool :=
+  match pc_runs c with
+  | 0 => true
+  | _ => path_eqb (pc_stub_cwd c) (c_cwd (pc_cfg c))
+  end.
+
+Definition proto_judge (c : pcase) : nat :=
+  verdict (spec_ok c) (model_eq c && str_model_eq c && cwd_eq c).
 
 Definition exact_argv (c : pcase) : bool :=
   match run (oracle_of (pc_oracle c)) (pc_cfg c) with
@@ -191,7 +203,12 @@ Definition spec_diff (c : pcase) : list string :=
 
 (* do the hypotheses of the theorems of Props/C20.v hold of this case?  (reported as coverage) *)
 Definition hyps_hold (c : pcase) : bool :=
-  wf_nodeb (c_root (pc_cfg c)) && dirs_okb (pc_cfg c).
+  wf_nodeb (c_root (pc_cfg c)) && dirs_okb (pc_cfg c) && tree_agreesb (c_root (pc_cfg c)).
+(* one number per case for the evidence: 1 tree is a file system | 2 directories exist |
+   4 the scan is right about every proto | 8 exact argv = structured model | 16 = string model *)
+Definition case_bits (c : pcase) : nat :=
+  (if wf_nodeb (c_root (pc_cfg c)) then 1 else 0) + (if dirs_okb (pc_cfg c) then 2 else 0)
+  + (if tree_agreesb (c_root (pc_cfg c)) then 4 else 0).
 Definition exact_and_hyps (c : pcase) : bool := exact_argv c && hyps_hold c.
 
 (* verdict and the differing observables in one number, for reports and minimisation:
@@ -208,8 +225,16 @@ Definition spec_diff_bits (c : pcase) : nat :=
   + (if multiset_eqb mapping_eqb (o_grpc o) (o_grpc s) then 0 else 32)
   + (if req_eqb (o_req o) (o_req s) then 0 else 64).
 
+(* everything the driver wants to know about a case in one number (never 0):
+   1 + domain bits (1 wf, 2 dirs, 4 scan agrees) + 8 exact argv (structured model)
+     + 16 exact argv (string model) + 32 * proto_judge_sig *)
+Definition proto_case_info_with (sig : nat) (c : pcase) : nat :=
+  1 + case_bits c + (if exact_argv c then 8 else 0) + (if str_exact c then 16 else 0) + 32 * sig.
+
 Definition proto_judge_sig (c : pcase) : nat :=
   match proto_judge c with
   | 0 => 0
   | k => k + 4 * spec_diff_bits c
   end.
+
+Definition proto_case_info (c : pcase) : nat := proto_case_info_with (proto_judge_sig c) c.
